@@ -65,6 +65,9 @@ class CompileResult:
 
     def first_error(self):
         for line in self.err.splitlines():
+            if "undefined reference" in line or "multiple definition" in line:     # link errors: the symbol, not "ld returned 1"
+                return line.strip()[:400]
+        for line in self.err.splitlines():
             if "error" in line:
                 return line.strip()[:400]
         return self.err.strip()[:400]
@@ -227,6 +230,7 @@ class Ctx:
 # Replay: a replay file is JSON {property, what, kind, src, cfg, flags, mode, expect, args, env}
 #   mode 'syntax'  : compile -fsyntax-only;   expect 'ok' | 'fail'
 #   mode 'run'     : compile+run;             expect 'exit0'   (program must exit 0)
+#   mode 'build'   : compile+link, not run;   expect 'ok' | 'fail'
 # The violation reproduces iff the observed outcome differs from 'expect'.
 
 def replay_case(r, workdir):
@@ -242,6 +246,12 @@ def replay_case(r, workdir):
             return None, "inconclusive (resource limit)"
         got = "ok" if cr.ok else "fail"
         return got != r["expect"], "compile %s (expected %s): %s" % (got, r["expect"], cr.first_error())
+    if r["mode"] == "build":      # compile AND link (a missing definition is a link error), do not run
+        cr = compile_one(cfg, src, src[:-3] + ".exe", flags=flags, defines=r.get("defines", []))
+        if cr.resource_limited:
+            return None, "inconclusive (resource limit)"
+        got = "ok" if cr.ok else "fail"
+        return got != r["expect"], "build %s (expected %s): %s" % (got, r["expect"], cr.first_error())
     if r["mode"] == "pyjudge" and r.get("no_build"):
         import importlib
         mod, fn = r["judge"].split(":")
